@@ -25,6 +25,7 @@ FORBIDDEN_ACTIONS = ["c2pa.edited", "c2pa.color_adjustments", "c2pa.resized", "c
 
 
 def facts(ctx):
+    ties = []          # shape fragments that no longer match: reported as a broken tie, the run goes on
     t = common.strip_tests(common.src("sdk/src/claim.rs"))
     m = common.fact(r"const\s+ALLOWED_UPDATE_MANIFEST_ACTIONS\s*:\s*\[&str;\s*(\d+)\]\s*=\s*\[(.*?)\];", t, "ALLOWED_UPDATE_MANIFEST_ACTIONS")
     allowed = re.findall(r'"([^"]+)"', m.group(2))
@@ -41,14 +42,14 @@ def facts(ctx):
     limit = int(mt.group(2)) if mt.group(1) == ">" else int(mt.group(2)) - 1
     # fix 37f0723a3: the hard-binding test is the first rule of the update branch
     if not re.search(r"if\s+claim\.update_manifest\(\)\s*\{(?:\s*//[^\n]*\n)*\s*if\s+!claim\.hash_assertions\(\)\.is_empty\(\)\s*\{[^}]*?MANIFEST_UPDATE_INVALID", vi, re.S):
-        raise TieBroken("srcfacts: verify_internal's update branch no longer starts with the hard-binding test (hash_assertions non-empty => manifest.update.invalid)")
+        ties.append("srcfacts: verify_internal's update branch no longer starts with the hard-binding test (hash_assertions non-empty => manifest.update.invalid)")
     for frag, what in ((r"ALLOWED_UPDATE_MANIFEST_ACTIONS\s*\.iter\(\)\s*\.any\(\|a\|\s*\*a\s*==\s*action\.action\(\)\)", "allowed-action test"),
                        (r"match\s+parent_count\s*\{\s*0\s*=>\s*\{[^}]*?MANIFEST_UPDATE_WRONG_PARENTS", "parent_count 0 arm"),
                        (r"1\s*=>\s*\(\),\s*_\s*=>\s*\{[^}]*?MANIFEST_UPDATE_INVALID", "parent_count 1 / _ arms"),
                        (r"if\s+parent_count\s*>\s*1\s*\{[^}]*?MANIFEST_MULTIPLE_PARENTS", "non-update multiple parents"),
                        (r"ingredient\.relationship\s*==\s*Relationship::ParentOf", "parent filter")):
         if not re.search(frag, vi, re.S):
-            raise TieBroken(f"srcfacts: verify_internal: {what} no longer matches")
+            ties.append(f"srcfacts: verify_internal: {what} no longer matches")
     hb = common.fn_body(t, r"fn\s+verify_hash_binding\s*\(", "verify_hash_binding")
     for frag in ("if claim.label() == svi.binding_claim {",
                  "hash_assertions.is_empty() && !claim.update_manifest()",
@@ -62,7 +63,7 @@ def facts(ctx):
                  "if exclusion.start() > start_offset {",
                  "exclusion.set_start(exclusion.start() + start_adjust);"):
         if frag not in hb:
-            raise TieBroken(f"srcfacts: verify_hash_binding no longer contains `{frag}`")
+            ties.append(f"srcfacts: verify_hash_binding no longer contains `{frag}`")
     s = common.strip_tests(common.src("sdk/src/store.rs"))
     gb = common.fn_body(s, r"fn\s+get_hash_binding_manifest_impl\s*\(", "get_hash_binding_manifest_impl")
     for frag in ("if !visited.insert(claim.label().to_owned()) {",
@@ -72,16 +73,21 @@ def facts(ctx):
                  "return self.get_hash_binding_manifest_impl(parent, visited);",
                  "} else if !parent.hash_assertions().is_empty() {"):
         if frag not in gb:
-            raise TieBroken(f"srcfacts: get_hash_binding_manifest_impl no longer contains `{frag}`")
+            ties.append(f"srcfacts: get_hash_binding_manifest_impl no longer contains `{frag}`")
     vs = common.fn_body(s, r"pub\s+fn\s+verify_store\s*\(", "verify_store")
     if "store.get_claim(&svi.binding_claim)" not in vs or "Claim::verify_hash_binding(binding_claim" not in vs:
-        raise TieBroken("srcfacts: verify_store no longer runs verify_hash_binding on svi.binding_claim")
+        ties.append("srcfacts: verify_store no longer runs verify_hash_binding on svi.binding_claim")
     v = ("(* generated from sdk/src/claim.rs on every run — do not edit *)\n"
          "From Coq Require Import String List.\nImport ListNotations.\nLocal Open Scope string_scope.\n"
          "Definition ALLOWED_UPDATE_MANIFEST_ACTIONS : list string := [" + "; ".join('"%s"' % a for a in allowed) + "].\n"
          f"Definition UPDATE_THUMBNAIL_LIMIT : nat := {limit}.\n")
     common.write_if_changed(os.path.join(common.COQ, "Generated", "C21_facts.v"), v)
     ctx.facts = {"allowed": allowed, "thumb_limit": limit}
+    if ties:
+        if getattr(ctx, "tie_errors", None) is not None:
+            ctx.tie_errors.extend(ties)
+        else:
+            raise TieBroken("; ".join(ties))
 
 
 # ------------------------------------------------------------------ cases
